@@ -1,9 +1,10 @@
-/* environment for E-REAL obligations: IEEE classification is E-BITS' business; sqrt is the exact real root, modelled
- * as an uninterpreted function (so equal arguments give equal roots) constrained by s >= 0 and s*s == x */
+/* environment for E-REAL obligations: IEEE classification is E-BITS' business; sqrt is the exact real root:
+ * a fresh value s with s >= 0 and s*s == x (keeps the VC in pure nonlinear real arithmetic; obligations that need
+ * "equal arguments give equal roots" as a congruence use sym_real_env_uf.c instead) */
 #include <stddef.h>
-double __CPROVER_uninterpreted_lsvsqrt(double);
+double nondet_double(void);
 int __builtin_isfinite(double x){ return 1; }
 int __builtin_isnan(double x){ return 0; }
 int __builtin_isinf(double x){ return 0; }
 int __builtin_isinf_sign(double x){ return 0; }
-double sqrt(double x){ double s = __CPROVER_uninterpreted_lsvsqrt(x); __CPROVER_assume(s >= 0.0 && s*s == x); return s; }
+double sqrt(double x){ double s = nondet_double(); __CPROVER_assume(s >= 0.0 && s*s == x); return s; }
